@@ -77,9 +77,8 @@ Definition target_ok (i : insn) (len : Z) (s : cpu) : bool :=
   let t_ok t := (t mod 2 =? 0) && (0 <=? t) && (t <? A24) in
   match i with
   | IBcc _ d | IBsr d => t_ok (pc s + len + d)
-  | IJmp t | IJsr t =>
-    match t with JReg 7 => match i with IJsr _ => false | _ => true end | _ => true end &&
-    match jump_target s t with Some a => t_ok a | None => false end
+  | IJsr (JReg 7) => t_ok ((reg32 s 7 - 4) mod A24)      (* the target register is read after the push *)
+  | IJmp t | IJsr t => match jump_target s t with Some a => t_ok a | None => false end
   | IRts | IRte => match mem_read SL s (reg32 s 7 mod A24) with Some v => t_ok (v mod A24) | None => false end
   | ITrapa n => match mem_read SL s (4 * (8 + n)) with Some v => t_ok (v mod A24) | None => false end
   | _ => true
